@@ -563,7 +563,13 @@ V('C13', 'benign-undecodable-der-test-twice', KEY, "        if not norm_sig:\n  
 # (expect='UNDECIDED:<rule>': the family cannot judge the edit; the named rule must say so and nothing may claim a violation)
 V('C19', 'request-no-longer-sent', RPC, "        r = self._call('getbalance', account, minconf, include_watchonly)", "        pass", 'C19.Q1', scope='Proxy.getbalance')
 V('C19', 'converted-reply-dropped', RPC, "        return r\n\n    def getmininginfo", "        pass\n\n    def getmininginfo", ['C19.Q1'], scope=None)
-V('C19', 'verbose-header-by-default', RPC, "def getblockheader(self, block_hash, verbose=False):", "def getblockheader(self, block_hash, verbose=True):", 'UNDECIDED:C19.Z3')
+V('C19', 'verbose-header-by-default', RPC, "def getblockheader(self, block_hash, verbose=False):", "def getblockheader(self, block_hash, verbose=True):", 'C19.Q1')
+V('C19', 'verbosity-flag-no-longer-reaches-the-node', RPC, "r = self._call('getrawtransaction', b2lx(txid), 1 if verbose else 0)", "r = self._call('getrawtransaction', b2lx(txid), 1 if verbose else 1)", 'C19.Q1', scope='Proxy.getrawtransaction')
+V('C19', 'benign-higher-verbosity-requested', RPC, "r = self._call('getrawtransaction', b2lx(txid), 1 if verbose else 0)", "r = self._call('getrawtransaction', b2lx(txid), 2 if verbose else 0)", 'UNDECIDED:C19.Z3', scope='Proxy.getrawtransaction')
+V('C19', 'balance-converted-when-absent', RPC, "        if 'balance' in r:", "        if 'balance' not in r:", 'C19.T1', scope='Proxy.getinfo')
+V('C19', 'type-refusal-swallowed', RPC, "            raise TypeError('%s.getblock(): block_hash must be bytes; got %r instance' %\n                    (self.__class__.__name__, block_hash.__class__))", "            pass", 'C19.Z2', scope='Proxy.getblock')
+V('C16', 'null-prevout-refusal-gone', CORE, '                raise CheckTransactionError("CheckTransaction() : prevout is null")', '                pass', ['C16.Z2', 'C16.T1'], scope='CheckTransaction')
+V('C06', 'benign-unreachable-assertion-gone', EVAL, "        raise AssertionError(\"Unknown unary opcode encountered; this should not happen\")", "        pass", 'UNDECIDED:C06.Z2', scope='_UnaryOp')
 V('C16', 'duplicate-test-refuses-nothing', CORE, '            raise CheckBlockError("CheckBlock() : duplicate transaction")', '            pass', 'C16.B1', scope='CheckBlock')
 V('C16', 'pow-off-by-default', CORE, "def CheckBlock(block, fCheckPoW = True, fCheckMerkleRoot = True, cur_time=None):", "def CheckBlock(block, fCheckPoW = False, fCheckMerkleRoot = True, cur_time=None):", 'C16.B1')
 V('C16', 'sigop-total-starts-at-one', CORE, "    nSigOps = 0\n    for i, tx in enumerate(block.vtx):", "    nSigOps = 1\n    for i, tx in enumerate(block.vtx):", 'C16.B1', scope='CheckBlock')
